@@ -68,4 +68,4 @@ LEVEL_TEXT = ("Theorems over DBus/Ser.v (a mirror of zvariant's D-Bus serializer
               "length; the model is tied to /repo by differential runs of the real serializer (dynamic, Structure and 26 typed Rust types) on "
               "generated values, whose bytes are also compared with `marshal` directly.")
 LEVEL_NOTE = ("Trusted: Coq kernel; hand-written serializer model and serde-call model (sval_of); the harness hz; extraction. "
-              "Known finding: the size pass counts a descriptor that occurs twice as two fds while one is attached.")
+              "No known finding: a descriptor that occurs twice is attached twice (the serializer never de-duplicates) and the size pass counts two.")
